@@ -340,6 +340,32 @@ def run_case(ck, desc):
         if abs(float(obj3.m_scaled_func(p_other)) - float(obj3.m_i)) > 1e-15 * abs(float(obj3.m_i)):
             ck.violation("m_scaled_func(p_i)=m_i", {"re-wrapped": True}, desc)
         ck.count("tables_rewrapped")
+    if branch in ("long", "alpha") and n_rows >= 4 and where != "outside":
+        # the wrapper is USED: a reservoir whose own initial pressure is another table pressure runs a
+        # short simulation on it, recovery included. Afterwards the wrapper still reports what it
+        # reported when it was new (m_i, its table, its lookups) - users of an object only read it
+        from bluebonnet.flow import SinglePhaseReservoir
+
+        q_use = np.array([float(ms[0]), float(ms[len(ms) // 2]), float(ms[-1]), m_i])
+        before = (float(obj.m_i), np.asarray(obj.alpha(q_use), dtype=float).copy(), {k: np.array(obj.pvt_props[k], dtype=float, copy=True) for k in ("m-scaled", "alpha")}, float(obj.m_scaled_func(p_i)))
+        ps_ = np.sort(p)
+        p_other = float(ps_[max(1, len(ps_) // 3)])
+        try:
+            with warnings.catch_warnings(), np.errstate(all="ignore"):
+                warnings.simplefilter("ignore")
+                r_ = SinglePhaseReservoir(5, float(ps_[0]), p_other, obj)
+                r_.simulate(np.array([0.0, 0.01, 0.05, 0.3]))
+                r_.recovery_factor()
+                if "density" in obj.pvt_props:
+                    r_.recovery_factor(density=True)
+        except Exception as e:  # noqa: BLE001
+            ck.count(f"use_by_a_reservoir_raised.{type(e).__name__}")
+        after = (float(obj.m_i), np.asarray(obj.alpha(q_use), dtype=float), {k: np.asarray(obj.pvt_props[k], dtype=float) for k in ("m-scaled", "alpha")}, float(obj.m_scaled_func(p_i)))
+        changed = [nm for nm, a_, b_ in (("m_i", before[0], after[0]), ("alpha lookups", before[1], after[1]), ("m-scaled column", before[2]["m-scaled"], after[2]["m-scaled"]), ("alpha column", before[2]["alpha"], after[2]["alpha"]), ("m_scaled_func(p_i)", before[3], after[3])) if not np.array_equal(np.asarray(a_), np.asarray(b_), equal_nan=True)]
+        if changed:
+            ck.violation("wrapper-unchanged-by-its-users", {"changed": changed, "m_i": [before[0], after[0]], "reservoir_pressure_initial": p_other, "p_i": p_i}, desc)
+        drain("__init__") if False else LOG.clear()
+        ck.count("wrappers_re-read_after_use_by_a_reservoir")
     if branch == "long" and n_rows >= 5 and int(desc["u"][3] * 1000) % 8 == 0:
         # four wrappers built and queried from four threads at once, each on its own copy of the
         # table with its own initial pressure: same transform and lookups as when built alone
